@@ -43,7 +43,7 @@ LEVEL_TEXT = ('Generated-input exploration against an analytic reference: thousa
 LEVEL_NOTE = ('Trusts the closed-form Kelvin/Love solution for an incompressible homogeneous sphere and the stated '
               'compressibility / dynamic correction bounds (30(|mu|+rho g R)/K, 30 w^2R/g); the compiled solver is the binary '
               'in /repo (rebuilt from generated C when that is newer).')
-CASES = {'quick': 640, 'thorough': 16000}
+CASES = {'quick': 640, 'thorough': 40000}
 SHARDS = {'quick': 16, 'thorough': 16}
 RULE = ('Hypothesis draws (log10 R, log10 rho, l, log10 m_l, arg mu, integrator, configuration, nondimensionalize, slices, '
         'log10 r0/R, log10 rtol, log10 K-factor, log10 w^2R/g); |mu| is computed from m_l. Non-trivial = both solves '
